@@ -346,7 +346,7 @@ def proof_side(pid, tier, fn_status=None):
     if rc != 0 or not res["obligations"]:
         res["problems"].append("axiom audit failed (rc=%s): %s" % (rc, out[-1500:]))
     if tier == "thorough":
-        rc, out = jl.sh(["lake", "env", "leanchecker"] + modules_of(pid), cwd=jl.LEAN, timeout=3600)
+        rc, out = jl.sh(["lake", "env", "leanchecker"] + modules_of(pid) + ["JL.Tie." + t for t in tie_built] + extra_mods, cwd=jl.LEAN, timeout=3600)
         res["leanchecker"] = "ok" if rc == 0 else "FAILED: " + out[-500:]
         if rc != 0:
             res["problems"].append("leanchecker rejected JL.Props.%s: %s" % (pid, out[-500:]))
